@@ -41,6 +41,8 @@ import RbModel.Lemmas.Stch
 import RbModel.Lemmas.GposFlag
 import RbModel.Gen.GposWorked
 import RbModel.Lemmas.MatchSpanFlags
+import RbModel.Lemmas.PairSpanKern
+import RbModel.Gen.PairFlag
 
 namespace RbModel.Flags
 
@@ -1133,3 +1135,360 @@ example : ∃ c', (revMatchI spanRevCtx [[5]] [[3]] >>= revFinish spanRevCtx 7) 
    MonoRange.of_pairwise (by decide) _ _⟩
 
 end RbModel.Flags
+
+
+/-! ### the flagged span covers what pair kerning and pair positioning inspected (machine_kern, kerx simple formats, PairPos)
+
+  PairFlag.lean models `machine_kern` (kerning.rs: legacy `kern` formats 0 / 2), the copy of its loop in
+  aat_layout_kerx_table.rs::apply_simple_kerning (kerx formats 0 / 2 / 6; one more statement: `unsafe_to_concat(i, unsafe_to)`
+  when the iterator fails) and `PairAdjustment::apply` (GPOS PairPos formats 1 / 2) WITH the real skipping iterator
+  (`Gsub.It`, the model of ot_layout_gsubgpos.rs::skipping_iterator_t) and every `unsafe_to_break` / `unsafe_to_concat` call on
+  the buffer model, tied to the crate by the streams `kern-machine-flags`, `kerx-simple-flags`, `gpos-pair-iter` (hooks
+  kerning::machine_kern_flags, kerx::simple_kerning_flags, gpos::apply_subtable_flags).  The instrumented versions
+  (Lemmas/PairSpan.lean, Lemmas/PairSpanKern.lean) additionally return what was READ: per iteration of the kern loop an event
+  (left glyph `i`, the indices the iterator read, whether it found a right glyph, `stop` = that glyph `j` / `unsafe_to`, the
+  kerning value), for PairPos the list of indices read and the path taken.  `C03_kern_instrumented_same` /
+  `C03_pairpos_instrumented_same`: forgetting these gives the plain functions, so nothing new is trusted.
+
+  Statements about flags are compositions with `C03_interior`, hence for monotone clusters and cluster values ≤ u32::MAX. -/
+namespace RbModel.PairFlag
+open RbModel RbModel.Gsub RbModel.GposFlag RbModel.Flags
+open RbModel.Gpos (Pos Dir ValueRecordD pairApplyD)
+
+/-- **the instrumented kern functions are the kern functions** (one iteration, the loop for every fuel, `machine_kern`, the
+    kerx copy): dropping the events gives exactly the model functions the correspondence streams run. -/
+theorem C03_kern_instrumented_same (cm : Bool) (f : Font) (kernMask : Nat) (h cs : Bool) (kernOf : Nat → Nat → Int)
+    (fuel i : Nat) (b : Buf) (p : Array Pos) (fl : Bool) (d : Dir) (lc : Bool) :
+    (kernStepFI cm f kernMask h cs kernOf i b p fl).map (·.1) = kernStepF cm f kernMask h cs kernOf i b p fl ∧
+    (machineKernLoopFI cm f kernMask h cs kernOf fuel i b p fl).map (·.1) =
+      machineKernLoopF cm f kernMask h cs kernOf fuel i b p fl ∧
+    (machineKernFI f b p kernMask d cs kernOf).map (·.1) = machineKernF f b p kernMask d cs kernOf ∧
+    (kerxSimpleFI lc f b p kernMask d cs kernOf).map (·.1) = kerxSimpleF lc f b p kernMask d cs kernOf :=
+  ⟨kernStepFI_erase .., machineKernLoopFI_erase .., machineKernFI_erase .., kerxSimpleFI_erase ..⟩
+
+/-- **one kerned pair (a) — `machine_kern` and its kerx copy (`cm`)**: an iteration of the loop at `i < len` that applied a
+    non-zero kerning value found its right glyph `j` with the mark-skipping iterator; every index the iterator READ — the skipped
+    glyphs and `j` itself — lies in `(i, j + 1)`; the positions were updated by `kernPair` (split `kern >> 1` / rest, or
+    cross-stream: only `pos[j]`'s cross-axis offset, HAS_GPOS_ATTACHMENT); the flag call was `unsafe_to_break(i, j + 1)` —
+    NOT `(i, i + 2)` —, after which exactly the glyphs of `[i, j]` outside the span's minimum cluster `m` carry
+    `UNSAFE_TO_BREAK | UNSAFE_TO_CONCAT` (`Upd`, `BreakFlagged` glyph by glyph) and the loop continues at `j`.
+    Frame: no position outside `{i, j}` changes (cross-stream: none but `j`).  Monotone clusters, all three cluster levels,
+    every font / kern mask / direction / kerning function. -/
+theorem C03_kern_pair_flags_inspected (cm : Bool) (f : Font) (kernMask : Nat) (h cs : Bool) (kernOf : Nat → Nat → Int)
+    (i : Nat) (b : Buf) (p : Array Pos) (fl : Bool) (i' : Nat) (b' : Buf) (p' : Array Pos) (fl' : Bool) (e : KEvent)
+    (hs : kernStepFI cm f kernMask h cs kernOf i b p fl = .ok ((i', b', p', fl'), some e)) (hk : e.kern ≠ 0)
+    (hi : i < b.len) (hlen : b.len ≤ b.info.length)
+    (hu32 : ∀ q x, q < b.len → b.info[q]? = some x → x.cluster ≤ U32MAX) (hmono : MonoRange b.info 0 b.len) :
+    ∃ j gi gj f1 m, e.i = i ∧ e.found = true ∧ e.stop = j ∧ i' = j ∧ i < j ∧ j < b.len ∧
+      b.info[i]? = some gi ∧ b.info[j]? = some gj ∧ gi.mask &&& kernMask ≠ 0 ∧ e.kern = kernOf gi.gid gj.gid ∧
+      (∀ r ∈ e.reads, i < r ∧ r < j + 1) ∧ j ∈ e.reads ∧
+      liftG (Kern.kernPair p i j e.kern h cs) = .ok (p', f1) ∧ fl' = (fl || f1) ∧
+      b.unsafeToBreak i (some (j + 1)) = .ok b' ∧
+      IsRangeMin b.info i (j + 1) m ∧
+      Upd b.info b'.info i (j + 1) (neCl m) (orMask (Flag.UNSAFE_TO_BREAK ||| Flag.UNSAFE_TO_CONCAT)) ∧
+      (∀ q, i ≤ q → q ≤ j → ∃ x, b.info[q]? = some x ∧ BreakFlagged b'.info q x m) ∧
+      p'.size = p.size ∧ (∀ q, q ≠ i → q ≠ j → p'[q]? = p[q]?) ∧
+      (cs = true → f1 = true ∧ ∀ q, q ≠ j → p'[q]? = p[q]?) := by
+  obtain ⟨gi, hgi, _, s2⟩ := kernStepFI_spec cm f kernMask h cs kernOf i b p fl i' b' p' fl' _ hs hi
+  obtain ⟨hm, hei, t1, t2⟩ := s2 e rfl
+  have hf : e.found = true := by
+    cases hf : e.found with
+    | true => rfl
+    | false => exact absurd (t1 hf).2.2.2.1 hk
+  obtain ⟨hi', hij, hjl, hjm, hrd, gj, hgj, hke, _, k1⟩ := t2 hf
+  obtain ⟨f1, hl, hfl, hb⟩ := k1 hk
+  obtain ⟨m, hmin, hupd, hall⟩ := kernStepFI_break b b' i e.stop hb hij hjl ⟨hlen, hu32, hmono⟩
+  have hkp := liftG_ok _ _ hl
+  obtain ⟨hsz, hfr⟩ := Kern.kernPair_frame hkp
+  refine ⟨e.stop, gi, gj, f1, m, hei, hf, rfl, hi', hij, hjl, hgi, hgj, hm, hke, ?_, hjm, hl, hfl, hb, hmin, hupd, hall,
+    hsz, hfr, ?_⟩
+  · intro r hr; have := hrd r hr; omega
+  · intro hc; subst hc; exact kernPair_cross hkp
+
+-- non-vacuity: base 1 | mark | mark | base 2 with the pair (1, 2) = -50: the iterator reads 1, 2, 3 and stops at j = 3, the
+-- span is [0, 4): the two marks AND the right base are flagged (a span [0, 2) would leave glyphs 2 and 3 without the flag)
+example : (kernStepFI false {} 256 true false spanKernOf 0 (spanKernBuf 64 256) spanKernPos false).map
+      (fun r => (r.1.1, r.1.2.1.info.map (·.mask), r.1.2.2.1.toList.map (·.xa), r.2.map KEvent.view))
+    = .ok (3, [256, 259, 259, 259], [575, 0, 0, 475], some (0, [1, 2, 3], true, 3, -50)) := by rfl
+example : (0 : Nat) < (spanKernBuf 64 256).len ∧ (spanKernBuf 64 256).len ≤ (spanKernBuf 64 256).info.length ∧
+    (∀ q x, q < (spanKernBuf 64 256).len → (spanKernBuf 64 256).info[q]? = some x → x.cluster ≤ U32MAX) ∧
+    MonoRange (spanKernBuf 64 256).info 0 (spanKernBuf 64 256).len :=
+  ⟨by decide, by decide, fun q x _ hx => u32_of_all (by decide) q x hx, MonoRange.of_pairwise (by decide) _ _⟩
+-- cross-stream: only the right base moves (y_offset), the attachment flag is set
+example : (kernStepFI false {} 256 true true spanKernOf 0 (spanKernBuf 64 256) spanKernPos false).map
+      (fun r => (r.1.2.2.1.toList.map (·.xa), r.1.2.2.1.toList.map (·.yo), r.1.2.2.2))
+    = .ok ([600, 0, 0, 500], [0, 0, 0, -50], true) := by rfl
+
+/-- **the whole `machine_kern` (a)**: the loop runs to the end of the buffer (`len ≤ iEnd`: the fuel never ends it), only ORs
+    flag bits into masks (`Grown`; nothing else of the buffer but the scratch flag changes), and for EVERY iteration that
+    reached the iterator (`evs`, in loop order): the reads lie in `(i, stop]` resp. `(i, stop)`, and when a non-zero value was
+    applied to the pair `(i, j = stop)`, at the END of `machine_kern` every glyph of `[i, j]` whose cluster differs from the
+    span's minimum cluster `m` carries UNSAFE_TO_BREAK — later iterations never take it away.  Monotone clusters. -/
+theorem C03_kern_machine_flags_inspected (f : Font) (b : Buf) (p : Array Pos) (kernMask : Nat) (d : Dir) (cs : Bool)
+    (kernOf : Nat → Nat → Int) (bF : Buf) (pF : Array Pos) (flF : Bool) (evs : List KEvent) (iEnd : Nat)
+    (h : machineKernFI f b p kernMask d cs kernOf = .ok ((bF, pF, flF), evs, iEnd))
+    (hlen : b.len ≤ b.info.length) (hu32 : ∀ q x, q < b.len → b.info[q]? = some x → x.cluster ≤ U32MAX)
+    (hmono : MonoRange b.info 0 b.len) :
+    machineKernF f b p kernMask d cs kernOf = .ok (bF, pF, flF) ∧ b.len ≤ iEnd ∧
+    bF = { b with info := bF.info, scratch := bF.scratch } ∧ Grown b.info bF.info ∧
+    ∀ e ∈ evs, e.i < b.len ∧
+      (e.found = false → e.kern = 0 ∧ e.i < e.stop ∧ e.stop ≤ b.len ∧ ∀ r ∈ e.reads, e.i < r ∧ r < e.stop) ∧
+      (e.found = true → e.i < e.stop ∧ e.stop < b.len ∧ e.stop ∈ e.reads ∧ (∀ r ∈ e.reads, e.i < r ∧ r ≤ e.stop) ∧
+        (e.kern ≠ 0 → ∃ m, IsRangeMin b.info e.i (e.stop + 1) m ∧
+          ∀ q x, e.i ≤ q → q ≤ e.stop → b.info[q]? = some x → x.cluster ≠ m →
+            ∃ y, bF.info[q]? = some y ∧ y.cluster = x.cluster ∧ y.mask &&& Flag.UNSAFE_TO_BREAK ≠ 0)) := by
+  have he := machineKernFI_erase f b p kernMask d cs kernOf
+  rw [h] at he
+  unfold machineKernFI at h
+  cases h0 : b.unsafeToConcat 0 none with
+  | error e => simp [h0] at h
+  | ok b0 =>
+    simp only [h0] at h
+    obtain ⟨hg0, _⟩ := leadingConcat_spec b b0 h0 hlen
+    obtain ⟨hg, _, hend, hevs⟩ := kernEntry_spec false f kernMask _ cs kernOf b b0 p bF pF flF evs iEnd hg0 h ⟨hlen, hu32, hmono⟩
+    refine ⟨he.symm, hend, hg.1, hg.2, ?_⟩
+    intro e hm
+    obtain ⟨a0, a1, a2⟩ := hevs e hm
+    refine ⟨a0, ?_, a2⟩
+    intro hf
+    obtain ⟨c0, c1, c2, c3, _⟩ := a1 hf
+    exact ⟨c0, c1, c2, c3⟩
+
+example : (machineKernFI {} (spanKernBuf 64 256) spanKernPos 256 .ltr false spanKernOf).map kernView
+    = .ok ([258, 259, 259, 259], [575, 0, 0, 475], [(0, [1, 2, 3], true, 3, -50), (3, [], false, 4, 0)], 4) := by rfl
+
+/-- **(d) the kerx simple-format driver**: `apply_simple_kerning` of aat_layout_kerx_table.rs (formats 0 / 2 / 6) does NOT call
+    `machine_kern`; it is a textual copy of the loop (`C03_kern_pair_flags_inspected` is stated for both, parameter `cm`).  The
+    whole-function statement for the copy: same conclusion as `C03_kern_machine_flags_inspected`. -/
+theorem C03_kerx_simple_flags_inspected (lc : Bool) (f : Font) (b : Buf) (p : Array Pos) (kernMask : Nat) (d : Dir)
+    (cs : Bool) (kernOf : Nat → Nat → Int) (bF : Buf) (pF : Array Pos) (flF : Bool) (evs : List KEvent) (iEnd : Nat)
+    (h : kerxSimpleFI lc f b p kernMask d cs kernOf = .ok ((bF, pF, flF), evs, iEnd))
+    (hlen : b.len ≤ b.info.length) (hu32 : ∀ q x, q < b.len → b.info[q]? = some x → x.cluster ≤ U32MAX)
+    (hmono : MonoRange b.info 0 b.len) :
+    kerxSimpleF lc f b p kernMask d cs kernOf = .ok (bF, pF, flF) ∧ b.len ≤ iEnd ∧
+    bF = { b with info := bF.info, scratch := bF.scratch } ∧ Grown b.info bF.info ∧
+    ∀ e ∈ evs, e.i < b.len ∧
+      (e.found = true → e.i < e.stop ∧ e.stop < b.len ∧ e.stop ∈ e.reads ∧ (∀ r ∈ e.reads, e.i < r ∧ r ≤ e.stop) ∧
+        (e.kern ≠ 0 → ∃ m, IsRangeMin b.info e.i (e.stop + 1) m ∧
+          ∀ q x, e.i ≤ q → q ≤ e.stop → b.info[q]? = some x → x.cluster ≠ m →
+            ∃ y, bF.info[q]? = some y ∧ y.cluster = x.cluster ∧ y.mask &&& Flag.UNSAFE_TO_BREAK ≠ 0)) := by
+  have he := kerxSimpleFI_erase lc f b p kernMask d cs kernOf
+  rw [h] at he
+  unfold kerxSimpleFI at h
+  cases h0 : (if lc = true then b.unsafeToConcat 0 none else .ok b) with
+  | error e => simp [h0] at h
+  | ok b0 =>
+    simp only [h0] at h
+    have hg0 : BufGrown b b0 := by
+      cases lc with
+      | false => simp only [Bool.false_eq_true, if_false, Except.ok.injEq] at h0; subst h0; exact BufGrown.refl _
+      | true => simp only [if_true] at h0; exact (leadingConcat_spec b b0 h0 hlen).1
+    obtain ⟨hg, _, hend, hevs⟩ := kernEntry_spec true f kernMask _ cs kernOf b b0 p bF pF flF evs iEnd hg0 h ⟨hlen, hu32, hmono⟩
+    refine ⟨he.symm, hend, hg.1, hg.2, ?_⟩
+    intro e hm
+    obtain ⟨a0, _, a2⟩ := hevs e hm
+    exact ⟨a0, a2⟩
+
+example : (kerxSimpleFI false {} (spanKernBuf 64 256) spanKernPos 256 .ltr false spanKernOf).map kernView
+    = .ok ([256, 259, 259, 259], [575, 0, 0, 475], [(0, [1, 2, 3], true, 3, -50), (3, [], false, 4, 0)], 4) := by rfl
+
+/-- **the instrumented PairPos find is the find**: dropping the reads and the path tag gives `pairFind`, and
+    `pairPosApplyIt` is "find, then act" (`pairPosApply` of GposFlag.lean) by definition. -/
+theorem C03_pairpos_instrumented_same (c : Ctx) (pd : PairData) : (pairFindI c pd).map (·.1) = pairFind c pd :=
+  pairFindI_erase c pd
+
+/-- **(b) PairPos formats 1 and 2, success**: `PairAdjustment::apply` returns `Some(())` exactly on the path where the pair has
+    records; then the second glyph `j` was found by the skipping iterator, every index READ (the current glyph, the skipped
+    glyphs, `j`) lies in `[idx, j + 1)`, and the span is flagged UNSAFE_TO_BREAK iff a value record "worked"
+    (`f1 || f2`, `f_k` = record k non-empty and `apply_to_pos` returned true — characterised by `C03_value_worked_iff`):
+    then the call is `unsafe_to_break(idx, j + 1)` and right after it (`b1`) every read glyph outside the span's minimum
+    cluster carries the flag, and still does in the final buffer `b'` (after `finish`, which with a second record only adds
+    the flags of `[idx, j + 2)`); otherwise the call is `unsafe_to_concat(idx, j + 1)` (see
+    `C04_pairpos_fail_flags_inspected`).  Monotone clusters over `[idx, len)`, all cluster levels, every subtable content. -/
+theorem C03_pairpos_flags_inspected (c : Ctx) (p p' : Array Pos) (pd : PairData) (useX useY : Bool) (d : Dir) (b' : Buf)
+    (ap : Bool) (h : pairPosApplyIt c p pd useX useY d = .ok (b', p', ap))
+    (hidx : c.buf.idx < c.buf.len) (hlen : c.buf.len ≤ c.buf.info.length)
+    (hu32 : ∀ k x, c.buf.idx ≤ k → k < c.buf.len → c.buf.info[k]? = some x → x.cluster ≤ U32MAX)
+    (hmono : MonoRange c.buf.info c.buf.idx c.buf.len) :
+    ∃ found rs why, pairFindI c pd = .ok (found, rs, why) ∧
+      pairPosApply c.buf p found useX useY d = .ok (b', p', ap) ∧
+      (ap = true ↔ why = .records) ∧
+      (ap = true → ∃ j v1 v2 f1 f2, found = .records j v1 v2 ∧
+        c.buf.idx < j ∧ j < c.buf.len ∧ c.buf.idx ∈ rs ∧ j ∈ rs ∧ (∀ i ∈ rs, c.buf.idx ≤ i ∧ i < j + 1) ∧
+        liftG (pairApplyD v1 v2 useX useY d p c.buf.idx j) = .ok (p', f1, f2) ∧
+        ((f1 || f2) = true →
+          ∃ b1 m, c.buf.unsafeToBreak c.buf.idx (some (j + 1)) = .ok b1 ∧ pairFinish b1 j (!v2.isEmpty) = .ok b' ∧
+            IsRangeMin c.buf.info c.buf.idx (j + 1) m ∧
+            ∀ i ∈ rs, ∃ x, c.buf.info[i]? = some x ∧ BreakFlagged b1.info i x m ∧
+              (x.cluster ≠ m → ∃ y, b'.info[i]? = some y ∧ y.cluster = x.cluster ∧ y.mask &&& Flag.UNSAFE_TO_BREAK ≠ 0)) ∧
+        ((f1 || f2) = false →
+          ∃ b1, c.buf.unsafeToConcat c.buf.idx (some (j + 1)) = .ok b1 ∧ pairFinish b1 j (!v2.isEmpty) = .ok b')) := by
+  obtain ⟨found, rs, why, hF, _, hA⟩ := pairPosApplyIt_split c p p' pd useX useY d b' ap h
+  obtain ⟨s1, s2, s3, s4, s5, s6, s7, s8⟩ := pairFindI_span c pd found rs why hF hidx
+  refine ⟨found, rs, why, hF, hA, ?_⟩
+  cases found with
+  | notCovered =>
+    obtain ⟨_, _, rfl⟩ := pairPosApply_notCovered _ _ _ _ _ _ _ _ hA
+    refine ⟨⟨(fun h => by cases h), fun hw => ?_⟩, fun h => by cases h⟩
+    obtain ⟨_, _, _, hc, _⟩ := s5 hw; cases hc
+  | noSecond u =>
+    obtain ⟨_, _, rfl⟩ := pairPosApply_noSecond _ _ _ _ _ _ _ _ _ hA
+    refine ⟨⟨(fun h => by cases h), fun hw => ?_⟩, fun h => by cases h⟩
+    obtain ⟨_, _, _, hc, _⟩ := s5 hw; cases hc
+  | noRecord j =>
+    obtain ⟨_, _, rfl⟩ := pairPosApply_noRecord _ _ _ _ _ _ _ _ _ hA
+    refine ⟨⟨(fun h => by cases h), fun hw => ?_⟩, fun h => by cases h⟩
+    obtain ⟨_, _, _, hc, _⟩ := s5 hw; cases hc
+  | records j v1 v2 =>
+    have hw := s8 j v1 v2 rfl
+    obtain ⟨j', v1', v2', hc, hij, hjm, sp⟩ := s5 hw
+    cases hc
+    obtain ⟨rfl, f1, f2, hl, hbr, hco⟩ := pairPosApply_records _ _ _ _ _ _ _ _ _ _ _ hA
+    refine ⟨⟨fun _ => hw, fun _ => rfl⟩, fun _ => ⟨j, v1, v2, f1, f2, rfl, hij, by have := sp.hi; omega, sp.cur, hjm, sp.all, hl, ?_, hco⟩⟩
+    intro hf
+    obtain ⟨b1, hb1, hfin⟩ := hbr hf
+    obtain ⟨hb1', hg1, m, hmin, hfl⟩ := sp.breakFlagged hb1 hlen hu32 hmono
+    refine ⟨b1, m, hb1, hfin, hmin, ?_⟩
+    have hidx1 : b1.idx = c.buf.idx := by rw [hb1']
+    have hlen1 : b1.len = c.buf.len := by rw [hb1']
+    obtain ⟨hg2, _⟩ := pairFinish_grown b1 b' j (!v2.isEmpty) hfin (by omega) (by have := sp.hi; omega)
+      (by rw [hlen1, ← hg1.1] at *; exact hlen)
+      (by rw [hidx1, hlen1]; exact hg1.u32 hu32)
+    intro i hi
+    obtain ⟨x, hx, hbf⟩ := hfl i hi
+    refine ⟨x, hx, hbf, ?_⟩
+    intro hne
+    obtain ⟨y, hy, hyeq, hor⟩ := hbf
+    rcases hor with hor | hor
+    · exact absurd hor hne
+    · obtain ⟨z, hz, hzc, hzm⟩ := hg2.bit hy Flag.UNSAFE_TO_BREAK hor
+      refine ⟨z, hz, ?_, hzm⟩
+      rw [hzc, hyeq]; split <;> rfl
+
+-- non-vacuity: first 1 | mark | second 3 under IgnoreMarks: reads [0, 1, 2], the record moves glyph 0 by -50, the mark and the
+-- second glyph are flagged, the cursor moves to the second glyph
+example : (pairPosApplyIt (spanPairCtx 64 3) spanPairPos spanPairData false false .ltr).map pairView
+    = .ok ([256, 259, 259], 2, [550, 0, 500], true) := by rfl
+example : (pairFindI (spanPairCtx 64 3) spanPairData).map (fun r => (r.2.1, r.2.2)) = .ok ([0, 1, 2], .records) := by rfl
+example : (spanPairCtx 64 3).buf.idx < (spanPairCtx 64 3).buf.len ∧
+    (spanPairCtx 64 3).buf.len ≤ (spanPairCtx 64 3).buf.info.length ∧
+    (∀ k x, (spanPairCtx 64 3).buf.idx ≤ k → k < (spanPairCtx 64 3).buf.len → (spanPairCtx 64 3).buf.info[k]? = some x →
+      x.cluster ≤ U32MAX) ∧
+    MonoRange (spanPairCtx 64 3).buf.info (spanPairCtx 64 3).buf.idx (spanPairCtx 64 3).buf.len :=
+  ⟨by decide, by decide, fun k x _ _ hx => u32_of_all (by decide) k x hx, MonoRange.of_pairwise (by decide) _ _⟩
+
+/-- **the compiled crate flags the span the theorems say** (regenerated on every run, tools/gens/pairflag.py → Gen/PairFlag.lean):
+    on `base mark mark base` with the pair kerned by -50 the masks `machine_kern` of the crate left are the masks of the model,
+    whose one kerned pair is `(i, j) = (0, 3)` with reads `[1, 2, 3]` and span `[0, j + 1)`
+    (`C03_kern_pair_flags_inspected`) — a crate that flags `[i, i + 2)` leaves glyphs 2 and 3 without the flag and breaks this. -/
+theorem C03_gen_kern_span :
+    (machineKernFI {} { info := Gen.PairFlag.kernInfos.map infoK, len := 4, flags := Gen.PairFlag.bufFlags }
+        spanKernPos Gen.PairFlag.kernMask .ltr false spanKernOf).map
+      (fun r => (r.1.1.info.map (·.mask), r.2.1.map KEvent.view))
+    = .ok (Gen.PairFlag.kernMasks, [(0, [1, 2, 3], true, 3, -50), (3, [], false, 4, 0)]) := by rfl
+
+/-- the same for `apply_simple_kerning` of the kerx table (format 0 subtable, the plan's own kern mask) -/
+theorem C03_gen_kerx_span :
+    (kerxSimpleFI false {}
+        { info := Gen.PairFlag.kernInfos.map (fun t => infoK (t.1, Gen.PairFlag.kerxMask, t.2.2)), len := 4,
+          flags := Gen.PairFlag.bufFlags }
+        spanKernPos Gen.PairFlag.kerxMask .ltr false spanKernOf).map
+      (fun r => (r.1.1.info.map (·.mask), r.2.1.map KEvent.view))
+    = .ok (Gen.PairFlag.kerxMasks, [(0, [1, 2, 3], true, 3, -50), (3, [], false, 4, 0)]) := by rfl
+
+/-- the same for PairPos format 1 on `first mark second` under IgnoreMarks (`C03_pairpos_flags_inspected`: span `[idx, j + 1)`) -/
+theorem C03_gen_pairpos_span :
+    (pairPosApplyIt { spanPairCtx Gen.PairFlag.bufFlags 3 with
+        buf := { (spanPairCtx Gen.PairFlag.bufFlags 3).buf with info := Gen.PairFlag.pairInfosHit.map infoP } }
+      spanPairPos spanPairData false false .ltr).map (fun r => (r.1.info.map (·.mask), r.2.2))
+    = .ok (Gen.PairFlag.pairMasksHit, Gen.PairFlag.pairAppliedHit) := by rfl
+
+end RbModel.PairFlag
+
+/-! ### pair kerning / pair positioning: the reads are complete (decision locality), and the frame of the whole kern loop -/
+namespace RbModel.PairFlag
+open RbModel RbModel.Gsub RbModel.GposFlag RbModel.Flags
+open RbModel.Gpos (Pos Dir ValueRecordD)
+
+/-- **the kern decision depends on the glyphs read and on nothing else**: two buffers of the same length that hold the same
+    glyph at `i` and at every index the iterator read (in the first) go through the same iteration — same event (pair, reads,
+    kerning value), same next `i`, same new positions, same attachment flag.  So the list of reads in
+    `C03_kern_pair_flags_inspected` is complete: nothing outside `{i} ∪ reads ⊆ [i, j + 1)` can influence what the pair does. -/
+theorem C03_kern_decision_local (cm : Bool) (f : Font) (kernMask : Nat) (h cs : Bool) (kernOf : Nat → Nat → Int) (i : Nat)
+    (b1 b2 : Buf) (p : Array Pos) (fl : Bool) (i1 i2 : Nat) (b1' b2' : Buf) (p1 p2 : Array Pos) (fl1 fl2 : Bool)
+    (ev1 ev2 : Option KEvent)
+    (h1 : kernStepFI cm f kernMask h cs kernOf i b1 p fl = .ok ((i1, b1', p1, fl1), ev1))
+    (h2 : kernStepFI cm f kernMask h cs kernOf i b2 p fl = .ok ((i2, b2', p2, fl2), ev2))
+    (hi : i < b1.len) (hlen : b2.len = b1.len) (hcur : b1.info[i]? = b2.info[i]?)
+    (hag : ∀ e, ev1 = some e → ∀ r ∈ e.reads, b1.info[r]? = b2.info[r]?) :
+    ev2 = ev1 ∧ i2 = i1 ∧ p2 = p1 ∧ fl2 = fl1 := by
+  have d1 := kernStepFI_decide _ _ _ _ _ _ _ _ _ _ _ _ h1
+  have d2 := kernStepFI_decide _ _ _ _ _ _ _ _ _ _ _ _ h2
+  have d1' := kernDecideI_local f kernMask kernOf i b1.info b2.info b1.len ev1 d1 hcur hag
+  rw [hlen, d1'] at d2
+  have hev : ev2 = ev1 := (Except.ok.inj d2).symm
+  subst hev
+  obtain ⟨g1, hg1, s1, s2⟩ := kernStepFI_spec _ _ _ _ _ _ _ _ _ _ _ _ _ _ _ h1 hi
+  obtain ⟨g2, hg2, t1, t2⟩ := kernStepFI_spec _ _ _ _ _ _ _ _ _ _ _ _ _ _ _ h2 (by omega)
+  refine ⟨rfl, ?_⟩
+  cases ev2 with
+  | none =>
+    obtain ⟨_, a1, _, a2, a3⟩ := s1 rfl
+    obtain ⟨_, c1, _, c2, c3⟩ := t1 rfl
+    exact ⟨by omega, by rw [a2, c2], by rw [a3, c3]⟩
+  | some e =>
+    obtain ⟨_, _, u1, u2⟩ := s2 e rfl
+    obtain ⟨_, _, v1, v2⟩ := t2 e rfl
+    cases hf : e.found with
+    | false =>
+      obtain ⟨a1, a2, a3, _⟩ := u1 hf
+      obtain ⟨c1, c2, c3, _⟩ := v1 hf
+      exact ⟨by omega, by rw [a2, c2], by rw [a3, c3]⟩
+    | true =>
+      obtain ⟨a1, _, _, _, _, _, _, _, k0, k1⟩ := u2 hf
+      obtain ⟨c1, _, _, _, _, _, _, _, l0, l1⟩ := v2 hf
+      refine ⟨by omega, ?_⟩
+      by_cases hk : e.kern = 0
+      · obtain ⟨_, a2, a3⟩ := k0 hk
+        obtain ⟨_, c2, c3⟩ := l0 hk
+        exact ⟨by rw [a2, c2], by rw [a3, c3]⟩
+      · obtain ⟨f1, x1, x2, _⟩ := k1 hk
+        obtain ⟨f2, y1, y2, _⟩ := l1 hk
+        rw [x1] at y1
+        simp only [Except.ok.injEq, Prod.mk.injEq] at y1
+        exact ⟨y1.1.symm, by rw [x2, y2, y1.2]⟩
+
+-- non-vacuity: change the glyph AFTER the right base (index 4, never read) — the pair (0, 3) is kerned all the same
+example : ((kernStepFI false {} 256 true false spanKernOf 0
+      { spanKernBuf 64 256 with info := (spanKernBuf 64 256).info ++ [infoK (5, 256, 2, 7, 4)], len := 5 } spanKernPos false).map
+        (fun r => r.2.map KEvent.view),
+    (kernStepFI false {} 256 true false spanKernOf 0
+      { spanKernBuf 64 256 with info := (spanKernBuf 64 256).info ++ [infoK (9, 0, 8, 39, 9)], len := 5 } spanKernPos false).map
+        (fun r => r.2.map KEvent.view))
+    = (.ok (some (0, [1, 2, 3], true, 3, -50)), .ok (some (0, [1, 2, 3], true, 3, -50))) := by rfl
+
+/-- **the PairPos decision depends on the glyphs read and on nothing else**: a context with the same lookup settings and buffer
+    geometry whose buffer holds the same glyphs at the indices read finds the same second glyph on the same path. -/
+theorem C03_pairpos_decision_local (c1 c2 : Ctx) (hs : Similar c1 c2) (pd : PairData) (found : PairFound) (rs : List Nat)
+    (why : PairWhy) (h : pairFindI c1 pd = .ok (found, rs, why))
+    (hag : ∀ i ∈ rs, c1.buf.info[i]? = c2.buf.info[i]?) : pairFindI c2 pd = .ok (found, rs, why) :=
+  pairFindI_local hs pd found rs why h hag
+
+example : ∃ c2 : Ctx, Similar (spanPairCtx 64 3) c2 ∧ c2.buf.info ≠ (spanPairCtx 64 3).buf.info ∧
+    ∀ i ∈ [0, 1, 2], (spanPairCtx 64 3).buf.info[i]? = c2.buf.info[i]? :=
+  ⟨{ spanPairCtx 64 3 with buf := { (spanPairCtx 64 3).buf with info := (spanPairCtx 64 3).buf.info ++ [{ gid := 77 }] } },
+   ⟨rfl, rfl, rfl, rfl, rfl, rfl, rfl, rfl, rfl, rfl, rfl⟩, by decide, by decide⟩
+
+/-- **frame of the whole kern loop** (machine_kern and the kerx copy, any fuel, any start): the position array keeps its size and
+    a glyph that is neither the left nor the right glyph of a pair with a non-zero value keeps its position — in particular the
+    skipped marks between the two bases of a pair (cross-stream subtables included: they write `pos[j]` only, see
+    `C03_kern_pair_flags_inspected`; the offsets that `position_finish_offsets` later accumulates along the attachment chain are
+    the recorded finding C03-cross-stream-kern). -/
+theorem C03_kern_loop_frame (cm : Bool) (f : Font) (kernMask : Nat) (h cs : Bool) (kernOf : Nat → Nat → Int) (fuel i : Nat)
+    (b : Buf) (p : Array Pos) (fl : Bool) (bF : Buf) (pF : Array Pos) (flF : Bool) (evs : List KEvent) (iEnd : Nat)
+    (hr : machineKernLoopFI cm f kernMask h cs kernOf fuel i b p fl = .ok ((bF, pF, flF), evs, iEnd)) :
+    pF.size = p.size ∧
+    ∀ q, (∀ e ∈ evs, e.found = true → e.kern ≠ 0 → q ≠ e.i ∧ q ≠ e.stop) → pF[q]? = p[q]? :=
+  machineKernLoopFI_frame cm f kernMask h cs kernOf fuel i b p fl bF pF flF evs iEnd hr
+
+end RbModel.PairFlag
